@@ -252,7 +252,11 @@ pub fn gen_leaf(r: &mut Rng, cfg: &GenCfg, within: usize) -> Tok {
     let bad = r.chance(cfg.bad_permille, 1000);
     loop {
         match r.below(8) {
-            0 => return Tok::Id,
+            0 => {
+                if r.chance(1, 4) {
+                    return Tok::Id;
+                }
+            }
             1 => {
                 let m = r.submask(within);
                 return Tok::G(*r.pick(&ONE[..]), m);
